@@ -4,12 +4,12 @@ import json, os, sys, glob, re
 VERIF = os.path.dirname(os.path.dirname(os.path.abspath(__file__)))
 
 P = {
- "C01": ("Decides, for all paths of both flavours, the per-operation extent lemmas (bump, release, pop, drop, writer set) whose conjunction preserves the disjointness invariant; the induction over histories is a written argument (DESIGN Appendix A.1), not checked.",
+ "C01": ("Decides, for all paths of both flavours, the per-operation extent lemmas (bump, release, pop, drop, writer set) whose conjunction preserves the disjointness invariant, and that the four range accessors of all four handle types return the Meta fields those lemmas speak about (A1); the induction over histories is a written argument (DESIGN Appendix A.1), not checked.",
          "MIR + std models; arithmetic over Z with overflow as separate obligations (C04); frame: node words written only by list code.", "3.C01",
          "affine value numbering + dominance over MIR (extent lemmas)"),
  "C02": ("Decides the CAS protocol clauses P1-P7 (success edges dominate hand-out, expected-value discipline, header before link, node word outside accessible ranges, frozen marked words, search coherence) and P8, the re-use (ABA) safety of the two-step pop: no version bits, no reclamation scheme, no re-validation - reported as a known finding with a gdb-forced double hand-out. Does not decide linearizability; necessary, not sufficient.",
          "Schedules are not explored; P8 is a structural necessary condition, the demonstrating schedule was forced with gdb by a hunting sub-agent.", "3.C02", "CAS-protocol dominance and term rules over MIR"),
- "C03": ("Decides capacity and alignment terms on every Ok path (fresh and recycled, zero-size) with generic T symbolic, i.e. for all layouts.",
+ "C03": ("Decides capacity and alignment terms on every Ok path (fresh and recycled, zero-size) with generic T symbolic, i.e. for all layouts, and that capacity() / offset() of every handle report those terms (C01-A1).",
          "alignUp axioms (align_offset saturates at u32::MAX, C04-E6a); map backings: offset and maximum alignment are validated against the page alignment (A6, A7).", "3.C03", "affine value numbering + order prover (alignment/capacity terms)"),
  "C04": ("Decides read-only guard first, capacity guard dominance, no effect before any Err (single-thread projection), checked arithmetic on request sizes, enumerated panic sites, and that every Add/Sub/Mul and every narrowing cast of a type size reachable from the allocation entry points is bounded by guards / type widths or by a named arena invariant. Does not decide 'state exactly as before' beyond absence of effects.",
          "Arena invariants named in ARITH_JUSTIFIED (list / Meta extents below cap) are taken from C01 / C03 / C10.", "3.C04", "taint of request sizes to arithmetic sites + effect/dominance rules + order prover (Fourier-Motzkin) on every arithmetic site"),
@@ -39,7 +39,7 @@ P = {
          "bitflags constants from the crate's own definitions.", "3.C16", "term agreement across sibling formula sites + provenance"),
  "C17": ("Decides per-path clamp terms and must-store of rewind, overflow-freedom of the Current arm, the terms written by clear, and that a release after clear / rewind (a range above the cursor) has no effect.",
          "0 <= data_offset <= cap.", "3.C17", "must-pass-through + clamp terms + taint"),
- "C18": ("Decides ro guard, floor, copy length, cap/ptr refresh, absence of header effects, exclusivity (refs() == 1), the u32 bound of the request, failure atomicity of the file arm and the copy-on-write mode.",
+ "C18": ("Decides ro guard, floor, copy length, cap/ptr refresh, absence of header effects, exclusivity (refs() == 1), the u32 bound of the request, failure atomicity of the file arm and the copy-on-write mode (recorded by every open wrapper as its mapping function says, stored by the constructor, consulted before any re-map).",
          "Re-map failure paths not judged.", "3.C18", "dominance + term + effect rules on truncate"),
  "C19": ("Decides that checksum feeds one hasher an ordered, gap-free, overlap-free cover of allocated_memory()[reserved..] for every length, page size and content: a symbolic consumed-position is propagated over the CFG with loop invariants checked at entry and over the back edge, exact product and div/mod arithmetic, and must equal data.len() at every return. Equality of the digest then rests on the streaming contract of Checksumer.",
          "Checksumer::update is a streaming fold (update(a); update(b) = update(a ++ b)); page_size() != 0; slice::chunks contract.", "3.C19", "position dataflow with checked loop invariants over MIR (ordered contiguous cover)"),
